@@ -175,7 +175,29 @@ impl Handler {
         #[cfg(feature = "verif-hooks")]
         crate::verif::sync_point("handler.serve.enter", 0, None);
 
-        while let Some(frame) = recver.recv().await {
+        // The last ordinary frame received: where to pick up again if the subscription ends
+        let mut last_seen: Option<Scru128Id> = None;
+
+        loop {
+            let frame = match recver.recv().await {
+                Some(frame) => frame,
+                None => {
+                    // The store cuts a subscriber off when it falls too far behind the live
+                    // stream. The handler is still registered: resume after the last frame it
+                    // was given instead of going silent
+                    let mut options = self.configure_read_options().await;
+                    if options.tail || last_seen.is_some() {
+                        options.last_id = Some(last_seen.unwrap_or(self.id));
+                        options.tail = false;
+                    }
+                    recver = store.read(options).await;
+                    continue;
+                }
+            };
+            if frame.topic != "xs.threshold" && frame.topic != "xs.pulse" {
+                last_seen = Some(frame.id);
+            }
+
             // Skip registration activity that occurred before this handler was registered
             if (frame.topic == format!("{}.register", self.topic)
                 || frame.topic == format!("{}.unregister", self.topic))
